@@ -169,6 +169,7 @@ class FormulaMaterializer(metaclass=FormulaMaterializerMeta):
 
         self.factor_cache: dict[str, EvaluatedFactor] = {}
         self.encoded_cache: dict[Union[str, tuple[str, bool]], Any] = {}
+        self.encoder_state_cache: dict[str, Any] = {}
 
     def _init(self) -> None:
         pass  # pragma: no cover
@@ -194,6 +195,7 @@ class FormulaMaterializer(metaclass=FormulaMaterializerMeta):
         # carry over to another call.
         self.factor_cache = {}
         self.encoded_cache = {}
+        self.encoder_state_cache = {}
 
         # Prepare ModelSpec(s)
         spec: Union[ModelSpec, ModelSpecs] = ModelSpec.from_spec(
@@ -700,10 +702,19 @@ class FormulaMaterializer(metaclass=FormulaMaterializerMeta):
         reduced_rank: bool = False,
     ) -> dict[str, Any]:
         if not factor.metadata.encoded:
-            if factor.expr in self.encoded_cache:
-                encoded = self.encoded_cache[factor.expr]
-            elif (factor.expr, reduced_rank) in self.encoded_cache:
-                encoded = self.encoded_cache[(factor.expr, reduced_rank)]
+            if (
+                factor.expr in self.encoded_cache
+                or (factor.expr, reduced_rank) in self.encoded_cache
+            ):
+                encoded = self.encoded_cache.get(
+                    factor.expr, self.encoded_cache.get((factor.expr, reduced_rank))
+                )
+                # Every spec that uses the factor records how it was encoded,
+                # not only the one for which it was encoded first.
+                if factor.expr in self.encoder_state_cache:
+                    spec.encoder_state.setdefault(
+                        factor.expr, self.encoder_state_cache[factor.expr]
+                    )
             else:
 
                 def map_dict(f: Any) -> Any:
@@ -795,6 +806,7 @@ class FormulaMaterializer(metaclass=FormulaMaterializerMeta):
                             factor
                         )  # pragma: no cover; it is not currently possible to reach this sentinel
                 spec.encoder_state[factor.expr] = (factor.metadata.kind, encoder_state)
+                self.encoder_state_cache[factor.expr] = spec.encoder_state[factor.expr]
 
                 # Only encode once for encodings where we can just drop a field
                 # later on below.
